@@ -1,6 +1,7 @@
 package main
 
 import (
+	"context"
 	"encoding/json"
 	"fmt"
 	"math/rand"
@@ -10,6 +11,7 @@ import (
 	"regexp"
 	"sort"
 	"strings"
+	"time"
 
 	"github.com/getkin/kin-openapi/openapi3"
 	"github.com/ghodss/yaml"
@@ -282,6 +284,11 @@ func runC15(c runCfg) error {
 			ms = append(ms, mutant{b.name, "original", "-", bs})
 			ms = append(ms, mutantsOf(b.name, b.root, rng, budget)...)
 		}
+		// alias graphs: every way three (thorough: four) component entries of one kind can be definitions or aliases of one another
+		// (chains, self references, cycles, tails that lead into a cycle, in every sort order of the names)
+		for gi, d := range c15AliasGraphs(c.Thorough) {
+			ms = append(ms, mutant{fmt.Sprintf("aliasgraph-%d", gi), "original", "-", []byte(d)})
+		}
 		// hand-written documents for the historical crash sites
 		for i, d := range c15Regression {
 			addBase(fmt.Sprintf("regression-%d", i), []byte(d))
@@ -318,8 +325,16 @@ func runC15(c runCfg) error {
 		d, _ := os.MkdirTemp(scratchDir, "cli")
 		sf := filepath.Join(d, "openapi.json")
 		os.WriteFile(sf, m.doc, 0o644)
-		cmd := exec.Command(cliBin, "-file", sf, "-out", filepath.Join(d, "out"), "-package", "t", "-client")
+		ctx, cancel := context.WithTimeout(context.Background(), 20*time.Second)
+		cmd := exec.CommandContext(ctx, cliBin, "-file", sf, "-out", filepath.Join(d, "out"), "-package", "t", "-client")
 		out, err := cmd.CombinedOutput()
+		hung := ctx.Err() != nil
+		cancel()
+		if hung {
+			cli[i] = "timeout+panic" // (did not terminate: judged like a crash)
+			os.RemoveAll(d)
+			continue
+		}
 		code := 0
 		if err != nil {
 			if ee, ok := err.(*exec.ExitError); ok {
@@ -372,6 +387,46 @@ func runC15(c runCfg) error {
 	meta := map[string]interface{}{"mutants": len(ms), "accepted_by_loader": len(cases), "kinds": kinds, "outcomes": outcomes}
 	bs, _ := json.MarshalIndent(meta, "", " ")
 	return os.WriteFile(filepath.Join(c.Out, "meta.json"), bs, 0o644)
+}
+
+func c15AliasGraphs(thorough bool) []string {
+	names := []string{"Aa", "Mm", "Zz"}
+	if thorough {
+		names = append(names, "Kk")
+	}
+	kinds := []struct{ section, def, use string }{
+		{"schemas", `{"type":"object","properties":{"a":{"type":"string"}}}`, `"paths":{"/a":{"get":{"responses":{"200":{"description":"ok","content":{"application/json":{"schema":{"$ref":"#/components/schemas/%s"}}}}}}}}`},
+		{"responses", `{"description":"r"}`, `"paths":{"/a":{"get":{"responses":{"200":{"$ref":"#/components/responses/%s"}}}}}`},
+		{"parameters", `{"name":"q","in":"query","schema":{"type":"string"}}`, `"paths":{"/a":{"get":{"parameters":[{"$ref":"#/components/parameters/%s"}],"responses":{"200":{"description":"ok"}}}}}`},
+		{"headers", `{"schema":{"type":"string"}}`, `"paths":{"/a":{"get":{"responses":{"200":{"description":"ok","headers":{"X-A":{"$ref":"#/components/headers/%s"}}}}}}}`},
+		{"requestBodies", `{"content":{"application/json":{"schema":{"type":"object"}}}}`, `"paths":{"/a":{"post":{"requestBody":{"$ref":"#/components/requestBodies/%s"},"responses":{"200":{"description":"ok"}}}}}`},
+	}
+	var out []string
+	n := len(names)
+	total := 1
+	for i := 0; i < n; i++ {
+		total *= n + 1
+	}
+	for _, k := range kinds {
+		for code := 0; code < total; code++ {
+			c := code
+			var entries []string
+			for i := 0; i < n; i++ {
+				choice := c % (n + 1)
+				c /= n + 1
+				if choice == n {
+					entries = append(entries, fmt.Sprintf("%q:%s", names[i], k.def))
+				} else {
+					entries = append(entries, fmt.Sprintf(`%q:{"$ref":"#/components/%s/%s"}`, names[i], k.section, names[choice]))
+				}
+			}
+			for _, used := range []string{names[0], names[n-1]} {
+				out = append(out, fmt.Sprintf(`{"openapi":"3.0.0","info":{"title":"t","version":"1"},%s,"components":{%q:{%s}}}`,
+					fmt.Sprintf(k.use, used), k.section, strings.Join(entries, ",")))
+			}
+		}
+	}
+	return out
 }
 
 var c15Regression = []string{
